@@ -65,8 +65,8 @@ def keys_stored(ctx, fn):
     info, top = set(), set()
     for n in own_nodes(fn.node):
         if isinstance(n, ast.Assign) and isinstance(n.targets[0], ast.Subscript) and const_str(n.targets[0].slice):
-            base = norm(n.targets[0].value)
-            (info if base in ("info", "self.meta['info']") else top).add(const_str(n.targets[0].slice))
+            from .c06 import _is_info_base
+            (info if _is_info_base(ctx, None, n.targets[0].value, fn) else top).add(const_str(n.targets[0].slice))
     return info, top
 
 
